@@ -48,11 +48,12 @@ ENVCALL = {"EnvCall"}
 REFUSALS = selcorr.ALLOWED | {"ValueError:focus", "Exception:overridable", "TypeError:tooled"} | ENVCALL
 
 
-def classify_probe(s, env, overridable=False, probe_type=None):
-    """create + activate + deactivate a probe; exception class of the refusal"""
+def classify_probe(s, env, overridable=False, probe_type=None, more=()):
+    """create + activate + deactivate a probe (on selector s, and on the selectors `more` as well); exception class
+    of the refusal"""
     import ptera
     try:
-        prb = ptera.probing(s, env=env, overridable=overridable, probe_type=probe_type)
+        prb = ptera.probing(*more[:1], s, *more[1:], env=env, overridable=overridable, probe_type=probe_type)
         prb.__enter__()
         prb.__exit__(None, None, None)
         return {"ok": True}
@@ -201,6 +202,15 @@ def run(chk):
             elif p["err"] not in REFUSALS:
                 chk.violation("oracle", "probing(%r, probe_type=%r) raised %s: %s" % (s, ptype, p["err"], p.get("msg")),
                               {"call": "probing", "string": s, "overridable": ov, "probe_type": ptype, "raised": p})
+        # … and when the probe has other, well-formed selectors next to it (before or after)
+        if not ov:
+            for more in (("f > a",), ("f(!x, !!a)", "f > a")):
+                p = classify_probe(s, env, more=more)
+                chk.count(("defective", s, "with", more))
+                if "ok" in p:
+                    chk.violation("oracle", "probing(%s) was accepted although %r has a %s" % (
+                        ", ".join(map(repr, more[:1] + (s,) + more[1:])), s, what),
+                        {"call": "probing", "string": s, "other_selectors": list(more)})
     for s in WELLFORMED:
         p = classify_probe(s, env)
         chk.count(("wellformed", s))
